@@ -522,7 +522,7 @@ Proof.
   - now apply vp_holds_b_sound.
 Qed.
 
-(* ---------- the repaired consumer (F44): exact also with coincident samples ---------- *)
+(* ---------- the repaired = current consumer (F45): exact also with coincident samples ---------- *)
 
 Lemma drop_first_some : forall q l r, NoDup (map fst l) -> drop_first q l = Some r ->
   In q (map fst l) /\ map fst r = remove Z.eq_dec q (map fst l).
